@@ -503,7 +503,7 @@ def codegen_sqrt(x):
     https://doi.org/10.1002/mma.8639
     """
     alg = x.algebra
-    if x.grades == (0,):
+    if x.grades in ((), (0,)):
         return {0: f'({str(x.e)}**0.5)'}
     a, bI = x.grade(0), x - x.grade(0)
     has_solution = len(x.grades) <= 2 and 0 in x.grades
